@@ -83,12 +83,17 @@ func (n *node[T]) buildMethods() {
 		n.methodIndex += methodIndexMap[http.MethodTrace]
 	}
 	buildMethodIndexes(n.methodIndex)
+	n.allowIndex.Store(int64(n.methodIndex))
 }
 
-func (n *node[T]) AllowHeader() string { return getMethodIndexEntity(n.methodIndex).options }
+func (n *node[T]) AllowHeader() string {
+	return getMethodIndexEntity(int(n.allowIndex.Load())).options
+}
 
 // Methods 当前节点支持的请求方法
-func (n *node[T]) Methods() []string { return getMethodIndexEntity(n.methodIndex).methods }
+func (n *node[T]) Methods() []string {
+	return getMethodIndexEntity(int(n.allowIndex.Load())).methods
+}
 
 func getMethodIndexEntity(index int) methodIndexEntity {
 	methodIndexesMux.RLock()
@@ -151,6 +156,7 @@ func (tree *Tree[T]) buildMethods(num int, methods ...string) {
 	}
 
 	buildMethodIndexes(tree.node.methodIndex)
+	tree.node.allowIndex.Store(int64(tree.node.methodIndex))
 }
 
 // 根据现有节点重新统计各个请求方法的数量
